@@ -39,6 +39,13 @@ package kvql
 //@ axiom sem_lte(e *BinaryOpExpr, k B, v B): e.Op == Lte && holds(e, k, v) ==> (isKey(e.Left) && isStr(e.Right) ==> k <= strOf(e.Right)) && (isStr(e.Left) && isKey(e.Right) ==> strOf(e.Left) <= k)
 //@ axiom sem_false(e Expression, k B, v B): is(e, *BoolExpr) && holds(e, k, v) ==> as(e, *BoolExpr).Bool
 //
+// Counterexample-search only (never used in a proof): the exact meaning of an
+// atom whose operands are key / value / string literals, so that models of a
+// failed obligation are realistic enough to replay.
+//@ define isOperand(x Expression) Bool = is(x, *FieldExpr) || is(x, *StringExpr)
+//@ define operandOf(x Expression, k B, v B) B = ite(is(x, *StringExpr), strOf(x), ite(as(x, *FieldExpr).Field == KeyKW, k, v))
+//@ cexaxiom cx_atom(e *BinaryOpExpr, k B, v B): isOperand(e.Left) && isOperand(e.Right) ==> (e.Op == Eq ==> (holds(e, k, v) <==> operandOf(e.Left, k, v) == operandOf(e.Right, k, v))) && (e.Op == PrefixMatch ==> (holds(e, k, v) <==> pre(operandOf(e.Right, k, v), operandOf(e.Left, k, v)))) && (e.Op == Gt ==> (holds(e, k, v) <==> operandOf(e.Right, k, v) < operandOf(e.Left, k, v))) && (e.Op == Gte ==> (holds(e, k, v) <==> operandOf(e.Right, k, v) <= operandOf(e.Left, k, v))) && (e.Op == Lt ==> (holds(e, k, v) <==> operandOf(e.Left, k, v) < operandOf(e.Right, k, v))) && (e.Op == Lte ==> (holds(e, k, v) <==> operandOf(e.Left, k, v) <= operandOf(e.Right, k, v)))
+//
 //@ func inRange(start, end, val []byte, isEnd bool) bool
 //@   pure
 //
@@ -150,6 +157,7 @@ package kvql
 //@   props C02 C18
 //@   ghost k B, v B
 //@   requires e != nil && e.Op == Eq
+//@   use cx_atom(e, k, v)
 //@   use sem_eq(e, k, v)
 //@   ensures wf: wfST(res)
 //@   ensures[C02] covers: holds(e, k, v) ==> covers(res, k)
@@ -159,6 +167,7 @@ package kvql
 //@   props C02 C18
 //@   ghost k B, v B
 //@   requires e != nil && e.Op == PrefixMatch
+//@   use cx_atom(e, k, v)
 //@   use sem_prefix(e, k, v)
 //@   ensures wf: wfST(res)
 //@   ensures[C02] covers: holds(e, k, v) ==> covers(res, k)
@@ -168,6 +177,7 @@ package kvql
 //@   props C02 C18
 //@   ghost k B, v B
 //@   requires e != nil && (e.Op == Gt || e.Op == Gte)
+//@   use cx_atom(e, k, v)
 //@   use sem_gt(e, k, v)
 //@   use sem_gte(e, k, v)
 //@   ensures wf: wfST(res)
@@ -178,6 +188,7 @@ package kvql
 //@   props C02 C18
 //@   ghost k B, v B
 //@   requires e != nil && (e.Op == Lt || e.Op == Lte)
+//@   use cx_atom(e, k, v)
 //@   use sem_lt(e, k, v)
 //@   use sem_lte(e, k, v)
 //@   ensures wf: wfST(res)
@@ -292,6 +303,7 @@ package kvql
 //@   ghost k B, v B
 //@   requires e != nil && left != nil && e.Left == left
 //@   requires (keyIsGreater && (e.Op == Lt || e.Op == Lte)) || (!keyIsGreater && (e.Op == Gt || e.Op == Gte))
+//@   use cx_atom(e, k, v)
 //@   use sem_gt(e, k, v)
 //@   use sem_gte(e, k, v)
 //@   use sem_lt(e, k, v)
